@@ -37,6 +37,13 @@ var (
 		"https://app.example/c b", "https://app.example/%zz", "HTTP://localhost/cb", "http://user@127.0.0.1/cb",
 		"https:app.example/cb", "http://LOCALHOST/cb",
 	}
+	// plainly registered (exact-match) URIs that contain glob metacharacters: they are literals, whether or not the
+	// client opted into globs - feeding them through a glob matcher would widen the registration
+	poolMeta = []string{
+		"https://q.example/cb?tenant=1", "https://x.example/cb/*", "https://m.example/[ab]/cb", "https://m.example/{cb,cb2}",
+		`https://m.example/cb\?x=1`, "https://x.example/**", "https://x.example/*/cb", "http://localhost/cb?port=*",
+		"com.example.app:/cb?x=1", "https://q.example/cb?a=1&b=[12]", "https://*.tenant.example/cb", "http://127.0.0.1/[cb]",
+	}
 	globsGood = []string{
 		"https://*.example/cb", "https://app.example/**", "https://app.example/cb?*", "http://localhost:*/cb",
 		"http://127.0.0.1:*/**", "com.example.app:/**", "*://app.example/cb", "http*://app.example/*",
@@ -75,7 +82,7 @@ func genRegistration(r *rand.Rand) registration {
 	n := pick(r, 0, 1, 1, 2, 2, 3)
 	for i := 0; i < n; i++ {
 		var pool []string
-		switch x := r.IntN(20); {
+		switch x := r.IntN(24); {
 		case x < 7:
 			pool = poolHTTPS
 		case x < 10:
@@ -84,8 +91,10 @@ func genRegistration(r *rand.Rand) registration {
 			pool = poolLoopback
 		case x < 18:
 			pool = poolCustom
-		default:
+		case x < 20:
 			pool = poolOdd
+		default:
+			pool = poolMeta
 		}
 		if c.AppType == op.ApplicationTypeNative && r.IntN(3) == 0 {
 			pool = poolLoopback
@@ -377,6 +386,59 @@ func instantiateGlob(r *rand.Rand, g string, hit bool) string {
 	return s
 }
 
+// metaSubst replaces exactly one glob metacharacter (group) of a plainly registered URI by what a glob matcher
+// would accept in its place - or, less often, by something it would not. The result differs from the
+// registered string, so only a matcher that treats the literal as a pattern can accept it.
+func metaSubst(r *rand.Rand, b string) (string, bool) {
+	type site struct {
+		from, to int
+		hit, miss []string
+	}
+	var sites []site
+	for i := 0; i < len(b); i++ {
+		switch b[i] {
+		case '?':
+			sites = append(sites, site{i, i + 1, []string{"X", "#", "a", "%3F", "&", "\u00e9"}, []string{"XX", "/", ""}})
+		case '*':
+			j := i + 1
+			if j < len(b) && b[j] == '*' {
+				j++
+				sites = append(sites, site{i, j, []string{"attacker/chosen", "a/b/c", "x", ""}, []string{"*"}})
+			} else {
+				sites = append(sites, site{i, j, []string{"attacker-chosen", "evil", "", "9999", "a.b"}, []string{"a/b", "x/../y"}})
+			}
+			i = j - 1
+		case '[':
+			if k := strings.IndexByte(b[i:], ']'); k > 1 {
+				cls := b[i+1 : i+k]
+				sites = append(sites, site{i, i + k + 1, []string{cls[:1], cls[len(cls)-1:]}, []string{"z", cls, "[" + cls}})
+				i += k
+			}
+		case '{':
+			if k := strings.IndexByte(b[i:], '}'); k > 1 {
+				alts := strings.Split(b[i+1:i+k], ",")
+				sites = append(sites, site{i, i + k + 1, alts, []string{alts[0] + "3", "{" + alts[0]}})
+				i += k
+			}
+		case '\\':
+			if i+1 < len(b) {
+				sites = append(sites, site{i, i + 2, []string{b[i+1 : i+2]}, []string{"\\\\" + b[i+1:i+2], "X"}})
+				i++
+			}
+		}
+	}
+	if len(sites) == 0 {
+		return "", false
+	}
+	st := sites[r.IntN(len(sites))]
+	repl := pick(r, st.hit...)
+	if r.IntN(5) == 0 {
+		repl = pick(r, st.miss...)
+	}
+	out := b[:st.from] + repl + b[st.to:]
+	return out, out != b
+}
+
 type requested struct {
 	Kind   string   `json:"kind"`
 	Values []string `json:"values"` // nil: parameter absent; two values: parameter sent twice
@@ -386,6 +448,17 @@ func genRequested(r *rand.Rand, reg registration) requested {
 	c := reg.C
 	var bases []string
 	bases = append(bases, c.Redirects...)
+	var metaBases []string
+	for _, b := range bases {
+		if strings.ContainsAny(b, `?*[{\`) {
+			metaBases = append(metaBases, b)
+		}
+	}
+	if len(metaBases) > 0 && r.IntN(100) < 35 {
+		if v, ok := metaSubst(r, pick(r, metaBases...)); ok {
+			return requested{Kind: "meta-subst", Values: []string{v}}
+		}
+	}
 	x := r.IntN(100)
 	switch {
 	case x < 4:
